@@ -110,7 +110,12 @@ def check_text(mode, pats, ex, fs, res):
             continue
         s = alphabet.to_text(w, al, False)
         res.n['traces_validated_against_impl'] += 1
-        if (bool(ws.match(s)), bool(wb.match(s.encode('latin-1')))) != (a1.accepting(P[0]), a2.accepting(P[1])):
+        try:
+            real = (bool(ws.match(s)), bool(wb.match(s.encode('latin-1'))))
+        except Exception as e:  # noqa: BLE001
+            res.add_violation(ID, run.viol('language-differs', dict(inp, name=s), {'str': 'a boolean'}, {'bytes': type(e).__name__}))
+            return
+        if real != (a1.accepting(P[0]), a2.accepting(P[1])):
             res.n['fallback_cases'] += 1
             return
     res.outcomes.add('aut-equal' if not bad else 'aut-differ')
@@ -149,6 +154,42 @@ def check_escape(maxlen, res, sh, ns):
     res.samples.append({'escape': '[a]*'})
 
 
+NEG_LISTS = [['!a'], ['!a', '!b*'], ['-a'], ['!*.a', '!.h']]
+
+
+def check_negateall(res):
+    """All-exclusion lists (the implicit match-everything inclusion is synthesised by the library): str == bytes."""
+    for mod, mn in ((F, 'fn'), (G, 'glob')):
+        for pl in NEG_LISTS:
+            for fl, fname in ((mod.NEGATE | mod.NEGATEALL, 'NA'), (mod.NEGATE | mod.NEGATEALL | mod.MINUSNEGATE, 'NAM'),
+                              (mod.NEGATE | mod.NEGATEALL | mod.DOTMATCH, 'NAD')):
+                for name in ('a', 'b', 'ba', '.h', 'x.a', 'c'):
+                    res.n['evaluations'] += 1
+                    res.n['distinct_nontrivial'] += 1
+                    match = mod.globmatch if mn == 'glob' else mod.fnmatch
+                    a = _call(match, name, pl, flags=fl)
+                    b = _call(match, name.encode(), [p.encode() for p in pl], flags=fl)
+                    c = _call(lambda: bool(mod.compile([p.encode() for p in pl], flags=fl).match(name.encode())))
+                    res.outcomes.add('negateall-equal' if a == b == c else 'negateall-differ')
+                    if not (a == b == c):
+                        res.add_violation(ID, run.viol('negateall-bytes', {'mode': mn, 'patterns': pl, 'flags': fname, 'name': name}, a, {'bytes': b, 'compiled': c}))
+    import tempfile as _t
+    import shutil as _s
+    root = _t.mkdtemp(prefix='vfc18n_', dir=bind.scratch_base())
+    try:
+        for f in ('a.py', 'b.txt'):
+            open(os.path.join(root, f), 'w').close()
+        for pattern in ('!*.py', '!a*|!zz', '-b*'):
+            res.n['evaluations'] += 1
+            wf = WM.RECURSIVE | (WM.MINUSNEGATE if pattern.startswith('-') else 0)
+            a = _call(lambda: sorted(os.path.basename(x) for x in WM.WcMatch(root, pattern, flags=wf).match()))
+            b = _call(lambda: sorted(os.path.basename(x).decode() for x in WM.WcMatch(os.fsencode(root), pattern.encode(), flags=wf).match()))
+            if a != b:
+                res.add_violation(ID, run.viol('negateall-bytes', {'mode': 'WcMatch', 'patterns': [pattern], 'flags': 'RV', 'name': ''}, a, {'bytes': b}))
+    finally:
+        _s.rmtree(root, ignore_errors=True)
+
+
 def check_mixed(res):
     """str name/root with bytes pattern (or the reverse) raises TypeError."""
     root = tempfile.mkdtemp(prefix='vfc18_', dir=bind.scratch_base())
@@ -174,6 +215,20 @@ def check_mixed(res):
                 res.outcomes.add('mixed-typeerror' if ok else 'mixed-other')
                 if not ok:
                     res.add_violation(ID, run.viol('mixed-types', {'call': name, 'pattern': p, 'name': n},
+                                                   ('exc', 'TypeError'), r if r[0] == 'exc' else ('ok', repr(r[1])[:60])))
+        # REALPATH with a root of the other type: also for absolute names, existing or not
+        for nm, r_ in ((os.path.join(root, 'a'), os.fsencode(root)), (os.fsencode(os.path.join(root, 'a')), root),
+                       ('/nonexistent-vf/zz', os.fsencode(root)), (b'/nonexistent-vf/zz', root), ('zz', os.fsencode(root))):
+            for cname, fn in (('globmatch-abs', lambda: G.globmatch(nm, nm[:0] + ('*' if isinstance(nm, str) else b'*'), flags=G.REALPATH, root_dir=r_)),
+                              ('globfilter-abs', lambda: G.globfilter([nm], nm[:0] + ('**' if isinstance(nm, str) else b'**'), flags=G.REALPATH | G.GLOBSTAR, root_dir=r_)),
+                              ('compiled-abs', lambda: G.compile(nm[:0] + ('*' if isinstance(nm, str) else b'*'), flags=G.REALPATH).match(nm, root_dir=r_))):
+                res.n['evaluations'] += 1
+                r = _call(fn)
+                ok = r == ('exc', 'TypeError')
+                res.outcomes.add('mixed-typeerror' if ok else 'mixed-other')
+                if not ok:
+                    res.add_violation(ID, run.viol('mixed-types', {'call': cname, 'name_kind': 'abs-missing' if b'nonexistent' in os.fsencode(nm) else 'other',
+                                                                    'name_is_bytes': isinstance(nm, bytes)},
                                                    ('exc', 'TypeError'), r if r[0] == 'exc' else ('ok', repr(r[1])[:60])))
         for p, r_ in (('a*', os.fsencode(root)), (b'a*', root)):
             for cname, fn in (('glob', lambda: G.glob(p, root_dir=r_)), ('iglob', lambda: list(G.iglob(p, root_dir=r_))),
@@ -362,6 +417,7 @@ def run_chunk(chunk):
         check_raw(chunk[1], chunk[2], res)
     elif kind == 'mixed':
         check_mixed(res)
+        check_negateall(res)
     elif kind == 'walk':
         check_walk(res)
     impl.clear()
@@ -401,6 +457,11 @@ def replay(v):
         fl = flags_of(inp['mode'], inp['flags'])
         a, b = _call(mod.is_magic, inp['s'], flags=fl), _call(mod.is_magic, inp['s'].encode('latin-1'), flags=fl)
         return {'violates': a != b, 'observed': b}
+    if kind == 'negateall-bytes':
+        r = run.ChunkResult()
+        check_negateall(r)
+        hit = [x for x in r.viol if x['input'] == run.jsonable(inp)]
+        return {'violates': bool(hit), 'observed': hit[0]['observed'] if hit else 'ok'}
     if kind in ('mixed-types', 'glob-bytes', 'wcmatch-bytes'):
         r = run.ChunkResult()
         (check_mixed if kind == 'mixed-types' else check_walk)(r)
